@@ -129,8 +129,9 @@ def base_reactions() -> dict:
         1, 0, 0, 0, [(0, r1, False, False), (2, r1, False, False), (0, r1x, False, False)],
         parities=par, formalism="helicity")
     # canonical formalism, several (L, S) for one decay, L != parent spin
+    # (the resonance decays into spin 1 + spin 0 with L in {0, 2}, never its own spin 1)
     out["several-L.can"] = R.three_body_spec(
-        1, 1, 0, 0, [(0, R.P("R1", 1, 1.2, -1), False, False)], parities=(-1, 1, -1, -1),
+        1, 1, 0, 0, [(2, R.P("R1", 1, 1.2, -1), True, True)], parities=(-1, 1, -1, -1),
         formalism="canonical-helicity")
     out["several-L-spin2.can"] = R.three_body_spec(
         1, 0, 0, 0, [(0, R.P("R2", 2, 1.2, 1), False, False), (1, r3, False, False)], parities=par,
@@ -141,13 +142,13 @@ def base_reactions() -> dict:
 # (reaction, selections, builder tags, depth); "full" = "cat" + initial-state name + root decay
 TA, TB, TC, TD = ["none", "bw", "spy1"], ["none", "bwff", "spy2"], ["none", "abw", "spy1"], ["none", "spy1", "spy2"]
 QUICK = [
-    ("one-res.hel", "full", T4A, 3), ("one-res.can", "cat", T4B, 3),
+    ("one-res.hel", "full", T4A, 3), ("one-res.can", "full", TB, 3),
     ("two-res-one-topology.hel", "full", TC, 3), ("two-res-one-topology.can", "cat", T4A, 3),
     ("two-res-two-topologies.hel", "cat", T4A, 3), ("two-res-two-topologies.can", "cat", TD, 3),
     ("same-res-three-topologies.hel", "cat", TAGS, 3), ("same-res-three-topologies.can", "cat", T4A, 3),
     ("three-res.hel", "cat", T4A, 3), ("three-res.can", "cat", TA, 2),
     ("same-res-two-topologies+prefix-name.hel", "cat", T4B, 3),
-    ("several-L.can", "cat", TB, 3), ("several-L-spin2.can", "cat", TC, 3),
+    ("several-L.can", "cat", T4B, 3), ("several-L-spin2.can", "cat", TC, 3),
     ("half-integer-res.hel", "cat", T4B, 3),
     ("identical-particles-image.hel", "cat", T4A, 3), ("identical-particles-image.hel", "cat", TB, 3),
     ("four-body-topology0.hel", "cat", T4A, 3), ("four-body-topology1.hel", "cat", T4B, 3),
@@ -158,8 +159,8 @@ QUICK = [
 ]
 HEAVY = {"half-integer-res.can", "identical-particles-image.can", "four-body-topology0.can",
          "four-body-topology1.can"}
-FULL_D3 = {"one-res.hel", "two-res-two-topologies.hel", "same-res-two-topologies+prefix-name.hel",
-           "identical-particles-image.hel", "half-integer-res.hel", "four-body-topology0.hel"}
+FULL_D3 = {"one-res.hel", "same-res-two-topologies+prefix-name.hel", "identical-particles-image.hel",
+           "half-integer-res.hel"}
 
 
 def thorough_table() -> list:
@@ -178,7 +179,7 @@ def thorough_table() -> list:
     out += [
         ("jpsi_gpipi_f0f2.hel", "cat", TAGS, 4), ("jpsi_gpipi_f0f2.hel", "full", TAGS, 3),
         ("jpsi_gpipi_f0f2.can", "cat", TAGS, 4), ("jpsi_gpipi_f0f2.can", "full", T4B, 3),
-        ("jpsi_gpipi_omega.hel", "cat", TAGS, 4), ("jpsi_gpipi_omega.hel", "full", TAGS, 3),
+        ("jpsi_gpipi_omega.hel", "cat", TAGS, 4), ("jpsi_gpipi_omega.hel", "full", T4A, 3),
         ("jpsi_gpipi_omega.can", "cat", TAGS, 4), ("jpsi_gpipi_omega.can", "full", T4B, 3),
         ("lc_pkpi.hel", "cat", TAGS, 3), ("lc_pkpi.hel", "cat", T4A, 4), ("lc_pkpi.can", "cat", T4B, 3),
         ("jpsi_ksp_sigma_n.hel", "cat", TAGS, 4), ("jpsi_ksp_sigma_n.can", "cat", T4B, 3),
